@@ -5,17 +5,20 @@ import random
 from harness.runner import BCheck
 
 LEVEL = "exploration"
-LEVEL_TEXT = ("Floating-point forward-backward over a C++ DP is outside this family ('weak or silent on floating point'): nothing is claimed as proved. "
+LEVEL_TEXT = ("Deductive (vcgen/z3, all inputs, likelihoods as exact reals): determine_genotype returns the genotype whose likelihood is the unique maximum if that maximum exceeds "
+              "the threshold probability and 'unknown' otherwise - the GT-vs-GL clause at the decision function (contracts/genotype_py.py; the list sort with a key is "
+              "modelled as a stable ordered permutation; cross-checked against the compiled function on 200 exact binary fractions); GrayCodes (the enumerator the DP shares with C01). "
+              "The floating-point forward-backward over the C++ DP is outside this family ('weak or silent on floating point'): the posterior itself is not claimed as proved. "
               "Bounded stand-in: the compiled GenotypeDPTable against a plain summation of the documented HMM (global bipartition x transmission x "
               "allele assignment) on generated single individuals, trios and quartets (weights incl. 0 and >= 256, prior triples, recombination costs, "
               ">= 4 columns so that the sqrt(n) backward checkpoint is exercised); determine_genotype and the GT/GL/GQ consistency of the written VCF "
               "are checked on run_genotype outputs. The Gray-code enumerator both tables rely on is proved (contracts/graycodes_cpp.py).")
 LEVEL_NOTE = "Tolerance 1e-9 absolute on probabilities. Trusted: the summation oracle (runtime/genohmm.py)."
-TECHNIQUE = "bounded runtime contract against a plain-summation HMM oracle (floating point is outside deductive reach); GrayCodes leaf proved by vcgen/z3"
-D_MODULES = ["contracts.graycodes_cpp"]
+TECHNIQUE = "contract-based deductive verification of determine_genotype (reals) and the GrayCodes leaf (vcgen/z3) + bounded runtime contract against a plain-summation HMM oracle (the floating-point DP is outside deductive reach)"
+D_MODULES = ["contracts.graycodes_cpp", "contracts.genotype_py"]
 EXPLANATION = LEVEL_TEXT
 TRUSTED_BASE = ["plain-summation oracle runtime/genohmm.py", "IEEE double arithmetic with tolerance 1e-9"]
-ASSUMPTIONS = ["floats compared with absolute tolerance 1e-9", "the HMM definition is the one fixed in DESIGN.md (C08)"]
+ASSUMPTIONS = ["determine_genotype: floating-point comparisons treated as comparisons of exact reals; int_to_diploid_biallelic_gt taken as the identity on the genotype index", "floats compared with absolute tolerance 1e-9", "the HMM definition is the one fixed in DESIGN.md (C08)"]
 
 SHAPES = {"single": (1, []), "trio": (3, [[0, 1, 2]]), "quartet": (4, [[0, 1, 2], [0, 1, 3]]), "pair": (2, [])}
 PRIORS = [[1 / 3, 1 / 3, 1 / 3], [0.25, 0.5, 0.25], [0.9, 0.09, 0.01], [0.1, 0.1, 0.8], [0.0, 0.5, 0.5], [0.6, 0.4, 0.0]]
